@@ -208,6 +208,88 @@ Example T_C10mp_setpos_beyond_witness :
 Proof. exact setpos_beyond_witness. Qed.
 Print Assumptions T_C10mp_setpos_beyond_witness.
 
+(* ---------------------------------------------------------------- adaptive clients (the archive layer) *)
+
+(* client A = a deterministic client of the IMsgPackReader interface: it issues one of the operations
+   above, sees the answer (value / not loaded / exception class, and GetPosition() after a call that
+   returned) and decides from everything seen so far what to do next; CRet a = it is done.
+   mps_client_bsr .. K (stream_of data true) .. c = (transcript, result) of c driving CMsgPackStreamReader
+   over the chunked reader; str_client_run .. data .. c = the same client driving CMsgPackStringReader.
+   A run ends when the client returns or at the first exception.
+   client_seeks_ok = every SetPosition(p) the client issues when driven by the string reader has
+   p <= size (otherwise that run ends in std::invalid_argument: T_C10mp_setpos_beyond_witness). *)
+Theorem T_C10mp_adaptive_stream_equals_memory : forall K data narrow widen fuel o (A : Type) (c : client A),
+  (8 <= K)%nat -> fits_streamoff data -> bytes_ok data -> (length data < fuel)%nat ->
+  client_seeks_ok narrow widen data o c data = true ->
+  mps_client_bsr narrow widen K (stream_of data true) fuel o c = Ok (str_client_run narrow widen data o c).
+Proof. exact client_on_chunked_stream. Qed.
+Print Assumptions T_C10mp_adaptive_stream_equals_memory.
+
+Theorem T_C10mp_adaptive_any_reader :
+  forall (S : Type) (step : S -> bop -> outcome (bres * S)) (R : S -> mem -> Prop)
+         K data narrow widen fuel o (A : Type) (c : client A),
+  (8 <= K)%nat -> fits_streamoff data -> bytes_ok data -> (length data < fuel)%nat ->
+  client_seeks_ok narrow widen data o c data = true ->
+  (forall s m op, R s m -> op_sizet op ->
+     exists r s' m', step s op = Ok (r, s') /\ mem_step K data m op r = Some m' /\ R s' m') ->
+  forall s0, R s0 mem_start ->
+  exists s', interp step (mps_client narrow widen fuel o c []) s0 = Ok (str_client_run narrow widen data o c, s').
+Proof. exact client_any_reader. Qed.
+Print Assumptions T_C10mp_adaptive_any_reader.
+
+(* the strategy form: sigma maps the transcript so far (operation, answer with position) to the next
+   operation or None = stop; at most n steps.  A strategy that seeks only to 0, to positions GetPosition()
+   has shown it, or otherwise inside the data (seeks_inside) needs no further hypothesis. *)
+Theorem T_C10mp_strategy_stream_equals_memory : forall K data narrow widen fuel o n (sigma : strategy),
+  (8 <= K)%nat -> fits_streamoff data -> bytes_ok data -> (length data < fuel)%nat ->
+  seeks_inside data sigma ->
+  mps_client_bsr narrow widen K (stream_of data true) fuel o (client_of n sigma []) =
+    Ok (str_client_run narrow widen data o (client_of n sigma [])).
+Proof. exact strategy_on_chunked_stream. Qed.
+Print Assumptions T_C10mp_strategy_stream_equals_memory.
+
+Theorem T_C10mp_seeks_known_suffices : forall data sigma, seeks_known sigma -> seeks_inside data sigma.
+Proof. exact seeks_known_inside. Qed.
+Print Assumptions T_C10mp_seeks_known_suffices.
+
+(* COROLLARY, in words.  Any deterministic client of the IMsgPackReader interface that respects the
+   precondition of SetPosition observes no difference between memory and stream loading: same answers,
+   same positions, same exception class at the same step, hence the same decisions and the same result.
+   The archive scope classes are such clients: their model coq/MpScopeModel.v (ReadKey, FindValueByKey,
+   ResetKey, SerializeValue, VisitKeys, the array / binary scopes) touches the input only through the
+   string-reader model's functions (read_int .. read_ts, read_value_type, read_*_size, read_binary,
+   skip_at; a suffix serves as the position, SetPosition targets are mStartPos or positions obtained
+   before, and the length of a suffix occurs only as loop fuel), i.e. it is a client in the sense above up
+   to the first exception.  (Stated in words: MpScopeModel.v is not re-expressed as a [client] term here.)  What is NOT covered: what scope destructors do while an exception propagates (they go on
+   skipping from where the reader stands after the throw, which differs between the two readers exactly as
+   T_C10mp_skip_throw_related says; the propagating exception is the same), streams without seek support,
+   chunk sizes below 8. *)
+
+(* one concrete adaptive client: FindValueByKey in miniature (MpStreamModel.find_by_key: read the map
+   size, remember the position; per member read the key as a string, skip the value unless the key is the
+   wanted one, then read it as int32; finally SetPosition back to the remembered position) — on every
+   document, every chunk size >= 8 *)
+Theorem T_C10mp_find_by_key : forall K data narrow widen fuel o bound key,
+  (8 <= K)%nat -> fits_streamoff data -> bytes_ok data -> (length data < fuel)%nat ->
+  mps_client_bsr narrow widen K (stream_of data true) fuel o (find_by_key bound key) =
+    Ok (str_client_run narrow widen data o (find_by_key bound key)).
+Proof. exact find_by_key_stream_equals_memory. Qed.
+Print Assumptions T_C10mp_find_by_key.
+
+Example T_C10mp_example_find_by_key :
+  str_client_run no_narrow id_widen find_doc throw_all (find_by_key 27 [0x6B]) =
+    ([(RdMap, AOkAt (VNum 4) 1); (RdStr, AOkAt (VBytes [0x61]) 3); (RdSkip, AOkAt VUnit 4);
+      (RdStr, AOkAt (VBytes [0x62; 0x63; 0x64; 0x65; 0x66; 0x67; 0x68; 0x69; 0x6A]) 14); (RdSkip, AOkAt VUnit 17);
+      (RdStr, AOkAt (VBytes [0x6B]) 19); (RdInt s32, AOkAt (VInt (-70000)) 24); (RdSetPos 1, AOkAt VUnit 1)],
+     Some (Some (-70000)%Z)) /\
+  mps_client_bsr no_narrow id_widen 8 (stream_of find_doc true) 28 throw_all (find_by_key 27 [0x6B]) =
+    Ok (str_client_run no_narrow id_widen find_doc throw_all (find_by_key 27 [0x6B])) /\
+  mps_client_mem no_narrow id_widen 8 find_doc 28 throw_all (find_by_key 27 [0x6B]) =
+    Ok (str_client_run no_narrow id_widen find_doc throw_all (find_by_key 27 [0x6B])) /\
+  snd (str_client_run no_narrow id_widen find_doc throw_all (find_by_key 27 [0x71])) = Some None.
+Proof. exact find_by_key_run. Qed.
+Print Assumptions T_C10mp_example_find_by_key.
+
 (* ---------------------------------------------------------------- where the readers stand after a failing SkipValue *)
 
 (* (the scope destructors of the archive go on skipping from there inside try/catch.)
